@@ -153,6 +153,9 @@ def oracle_duplex_fault(pr, ma, mb, fault, sfcap):
 
 
 def run_shard(campaign, shard, nshards, seed, tier):
+    if campaign == 'api':
+        import apiuse
+        return apiuse.run_api('C11', shard, nshards, seed, tier)
     if campaign == 'duplex_faults':
         part = Part()
         rng = random.Random('%s/%s' % (seed, campaign))
@@ -210,4 +213,6 @@ def run(ctx):
     run_sharded(ctx, 'C11', 'faults')
     run_sharded(ctx, 'C11', 'duplex_faults')
     ctx.exhaustive['every frame index of both link directions x {drop, duplicate} for each generated scenario'] = True
-    return RULE, ASSUME
+    run_sharded(ctx, 'C11', 'api', nshards=2)
+    import apiuse
+    return RULE + apiuse.rule_text('C11'), ASSUME
